@@ -11,18 +11,14 @@ BwBlenC(cap, b, n) == IF n < cap - b THEN b + n
 \* @type: (Int, Int, Int) => Bool;
 BwAutoC(cap, b, n) == ~(n < cap - b) /\ n > cap - b /\ b > 0
 
-\* io.rs:75-113 - written' and buffered' after emit(len); flushOk: the flush taken when the metric does not fit succeeded
-\* @type: (Int, Int, Int, Int, Int, Bool) => Int;
-EmitNextW(cap, tlen, w, b, len, flushOk) ==
-  IF len + tlen > cap THEN w
-  ELSE IF cap - w < len + tlen /\ ~flushOk THEN w
-  ELSE (IF cap - w < len + tlen THEN 0 ELSE w) + len + tlen
-\* @type: (Int, Int, Int, Int, Int, Bool) => Int;
-EmitNextB(cap, tlen, w, b, len, flushOk) ==
-  IF len + tlen > cap THEN b
-  ELSE IF cap - w < len + tlen /\ ~flushOk THEN b
-  ELSE BwBlenC(cap, BwBlenC(cap, IF cap - w < len + tlen THEN 0 ELSE b, len), tlen)
+\* io.rs:75-113 - <<written', buffered'>> after emit(len); flushOk: the flush taken when the metric does not fit succeeded
 \* @type: (Int, Int, Int, Int, Int, Bool) => <<Int, Int>>;
 EmitNextC(cap, tlen, w, b, len, flushOk) ==
-  <<EmitNextW(cap, tlen, w, b, len, flushOk), EmitNextB(cap, tlen, w, b, len, flushOk)>>
+  LET req == len + tlen
+      left == cap - w IN
+  IF req > cap THEN <<w, b>>
+  ELSE IF left < req /\ ~flushOk THEN <<w, b>>
+  ELSE LET w0 == IF left < req THEN 0 ELSE w
+           b0 == IF left < req THEN 0 ELSE b
+       IN <<w0 + len + tlen, BwBlenC(cap, BwBlenC(cap, b0, len), tlen)>>
 =============================================================================
